@@ -24,6 +24,12 @@ def concrete_event(e, style):
     lat = round(31 + r.random() * 12, r.choice([1, 2, 3, 4, 6]))
     mag = round(2.5 + r.random() * 5.5, r.choice([1, 2]))
     depth = round(r.random() * 40, r.choice([0, 1, 3]))
+    if e % 6 == 2:
+        # an epicentre within metres of the equator / the prime meridian, a depth of a centimetre: repr() writes such values
+        # in exponent notation (2.5e-05), like every general float writer
+        lon = (1 + e % 7) * 1.25e-05 * (-1 if e % 4 == 2 else 1)
+        lat = -(1 + e % 5) * 3.5e-06
+        depth = 1e-05 * (1 + e % 3)
     # time: 1950..2100, all millisecond phases, pre-1970 included
     day = datetime.date(1950, 1, 1).toordinal() + r.randrange(0, 365 * 150)
     d = datetime.date.fromordinal(day)
